@@ -2397,3 +2397,102 @@ Proof.
   - destruct CoreExamples.kx_collect as (s & _ & A & B & _ & _ & C). exists s. auto.
 Qed.
 Print Assumptions C14_core_oom_retry_example.
+
+(* ------------------------------------------------------------------------------------------------
+   STORECONC2: the FULL retry theorem (C14_core_retry_after_gc_partial above is its corollary).
+   The collector's removal step is enabled for every dead node in a KInv state ([kgc_progress]), so a
+   whole collection by an existing thread t IS Conc's [collect] on the projection -- in every state *)
+From OxiVerif Require Mgr.ConcGcCount Mgr.CoreProgress Mgr.CoreProgressExamples.
+
+Theorem C14_core_collect_proj : forall k terms nl c t s,
+  CoreProofs.KInv k terms nl c s -> t < CoreProgress.nthreads s ->
+  Core.kproj (Core.kcollect k terms nl c t s) = ConcGc.collect k terms nl (Core.kproj s) /\
+  CoreProgress.nthreads (Core.kcollect k terms nl c t s) = CoreProgress.nthreads s.
+Proof. exact CoreProgress.kcollect_proj. Qed.
+Print Assumptions C14_core_collect_proj.
+
+(* [s]: any state of the manager (KInv); the existing thread t runs `Manager::gc` (s1); then any
+   allocator-internal actions (the collector's epilogue AGcFlush t, guard drops, ...) (s2); then thread
+   tid -- no slot is parked with another thread -- calls `get_or_insert` for a node that is not in
+   the table.  The table after the collection = the entries that some owned edge reaches; the call
+   fails IFF the table filled the store before the collection AND no stored node was dead
+   ([kdead]: stored, reached by no owned edge of any thread); it succeeds IFF there was room or some
+   stored node was dead -- after a failure on a full store: iff some stored node was dead *)
+Theorem C14_core_retry_after_gc : forall k terms nl c t s s1,
+  CoreProofs.KInv k terms nl c s -> t < CoreProgress.nthreads s -> s1 = Core.kcollect k terms nl c t s ->
+  CoreProofs.KInv k terms nl c s1 /\ Core.kproj s1 = ConcGc.collect k terms nl (Core.kproj s) /\
+  (forall id, In id (map fst (Core.k_cn s1)) <-> In id (map fst (Core.k_cn s)) /\ ~ CoreProgress.kdead s id) /\
+  length (Core.k_cn s) = length (Core.k_cn s1) + length (ConcGcCount.garbage nl (Core.kproj s)) /\
+  (forall id, In id (ConcGcCount.garbage nl (Core.kproj s)) <-> CoreProgress.kdead s id) /\
+  forall ias s2 xs2 rs2 tid l lvl ch s' r rs,
+    Core.krun k terms nl c s1 (map Core.KInternal ias) = Some (s2, xs2, rs2) ->
+    nth_error (Alloc.th (IndexStore.i_al (Core.k_i s2))) tid = Some l ->
+    AllocProofs.others_idle_p c (IndexStore.i_al (Core.k_i s2)) tid ->
+    Core.kstep k terms nl c s2 (Core.KGoi tid lvl ch) = Some (s', r, rs) ->
+    Conc.find_shape (Core.k_cn s2) lvl ch = None ->
+    CoreProofs.KInv k terms nl c s2 /\ Core.k_cn s2 = Core.k_cn s1 /\
+    (r = Core.KROom <-> length (Core.k_cn s) = N.to_nat (Alloc.cap c) /\ forall id, ~ CoreProgress.kdead s id) /\
+    ((exists fr, r = Core.KRNew fr) <->
+     length (Core.k_cn s) < N.to_nat (Alloc.cap c) \/ exists id, CoreProgress.kdead s id).
+Proof. exact CoreProgress.retry_after_gc. Qed.
+Print Assumptions C14_core_retry_after_gc.
+
+(* the statement in the words of the property: the store was full (the failed call), then a whole
+   collection and the retry: it succeeds iff some stored node was dead *)
+Theorem C14_core_retry_after_gc_full_store : forall k terms nl c t s s2 xs2 rs2 ias tid l lvl ch s' r rs,
+  CoreProofs.KInv k terms nl c s -> t < CoreProgress.nthreads s ->
+  length (Core.k_cn s) = N.to_nat (Alloc.cap c) ->
+  Core.krun k terms nl c (Core.kcollect k terms nl c t s) (map Core.KInternal ias) = Some (s2, xs2, rs2) ->
+  nth_error (Alloc.th (IndexStore.i_al (Core.k_i s2))) tid = Some l ->
+  AllocProofs.others_idle_p c (IndexStore.i_al (Core.k_i s2)) tid ->
+  Core.kstep k terms nl c s2 (Core.KGoi tid lvl ch) = Some (s', r, rs) ->
+  Conc.find_shape (Core.k_cn s2) lvl ch = None ->
+  ((exists fr, r = Core.KRNew fr) <-> exists id, CoreProgress.kdead s id) /\
+  (r = Core.KROom <-> forall id, ~ CoreProgress.kdead s id).
+Proof.
+  intros k terms nl c t s s2 xs2 rs2 ias tid l lvl ch s' r rs HK Ht Hfull Hrun Hl Ho H Hfs.
+  destruct (CoreProgress.retry_after_gc k terms nl c t s _ HK Ht eq_refl) as (_ & _ & _ & _ & _ & R).
+  destruct (R ias s2 xs2 rs2 tid l lvl ch s' r rs Hrun Hl Ho H Hfs) as (_ & _ & R1 & R2). split.
+  - rewrite R2. split; [intros [Hlt|D]; [rewrite Hfull in Hlt; exfalso; exact (Nat.lt_irrefl _ Hlt) | exact D] | intros D; right; exact D].
+  - rewrite R1. split; [intros [_ D]; exact D | intros D; split; [exact Hfull | exact D]].
+Qed.
+Print Assumptions C14_core_retry_after_gc_full_store.
+
+(* the hypotheses are satisfiable, both ways: on the run of Mgr/CoreExamples.v (full store, 6 entries)
+   with node 6 dead the retry after the collection gets slot 6 (collector 2 + epilogue + thread 0, or
+   the collector itself); one action earlier nothing is dead and the retry fails again *)
+Theorem C14_core_retry_examples :
+  (exists s, CoreProofs.kreachable Table.KBdd CoreExamples.kx_terms 4 AllocExamples.ex_cfg s /\
+     2 < CoreProgress.nthreads s /\ length (Core.k_cn s) = N.to_nat (Alloc.cap AllocExamples.ex_cfg) /\
+     CoreProgress.kdead s 6 /\
+     let s1 := Core.kcollect Table.KBdd CoreExamples.kx_terms 4 AllocExamples.ex_cfg 2 s in
+     (exists s2 xs2 rs2 l s' rs,
+        Core.krun Table.KBdd CoreExamples.kx_terms 4 AllocExamples.ex_cfg s1 (map Core.KInternal [Alloc.AGcFlush 2]) = Some (s2, xs2, rs2) /\
+        nth_error (Alloc.th (IndexStore.i_al (Core.k_i s2))) 0 = Some l /\
+        AllocProofs.others_idle_p AllocExamples.ex_cfg (IndexStore.i_al (Core.k_i s2)) 0 /\
+        Conc.find_shape (Core.k_cn s2) 0 [CoreExamples.KT0; CoreExamples.KT1] = None /\
+        Core.kstep Table.KBdd CoreExamples.kx_terms 4 AllocExamples.ex_cfg s2 (Core.KGoi 0 0 [CoreExamples.KT0; CoreExamples.KT1]) =
+          Some (s', Core.KRNew 6, rs)) /\
+     (exists l s' rs,
+        nth_error (Alloc.th (IndexStore.i_al (Core.k_i s1))) 2 = Some l /\
+        AllocProofs.others_idle_p AllocExamples.ex_cfg (IndexStore.i_al (Core.k_i s1)) 2 /\
+        Conc.find_shape (Core.k_cn s1) 0 [CoreExamples.KT0; CoreExamples.KT1] = None /\
+        Core.kstep Table.KBdd CoreExamples.kx_terms 4 AllocExamples.ex_cfg s1 (Core.KGoi 2 0 [CoreExamples.KT0; CoreExamples.KT1]) =
+          Some (s', Core.KRNew 6, rs))) /\
+  (exists s, CoreProofs.kreachable Table.KBdd CoreExamples.kx_terms 4 AllocExamples.ex_cfg s /\
+     2 < CoreProgress.nthreads s /\ length (Core.k_cn s) = N.to_nat (Alloc.cap AllocExamples.ex_cfg) /\
+     (forall id, ~ CoreProgress.kdead s id) /\
+     let s1 := Core.kcollect Table.KBdd CoreExamples.kx_terms 4 AllocExamples.ex_cfg 2 s in
+     exists s2 xs2 rs2 l s' rs,
+        Core.krun Table.KBdd CoreExamples.kx_terms 4 AllocExamples.ex_cfg s1 (map Core.KInternal [Alloc.AGcFlush 2]) = Some (s2, xs2, rs2) /\
+        nth_error (Alloc.th (IndexStore.i_al (Core.k_i s2))) 0 = Some l /\
+        AllocProofs.others_idle_p AllocExamples.ex_cfg (IndexStore.i_al (Core.k_i s2)) 0 /\
+        Conc.find_shape (Core.k_cn s2) 0 [CoreExamples.KT0; CoreExamples.KT1] = None /\
+        Core.kstep Table.KBdd CoreExamples.kx_terms 4 AllocExamples.ex_cfg s2 (Core.KGoi 0 0 [CoreExamples.KT0; CoreExamples.KT1]) =
+          Some (s', Core.KROom, rs)).
+Proof.
+  split.
+  - destruct CoreProgressExamples.kx_retry_dead as (s & A & _ & B & C & D & _ & E). exists s. auto.
+  - destruct CoreProgressExamples.kx_retry_none_dead as (s & A & B & C & _ & D & E). exists s. auto.
+Qed.
+Print Assumptions C14_core_retry_examples.
